@@ -329,7 +329,7 @@ pub fn run(ctx: &Ctx) {
     match crate::e2e::Env::from_env() {
         Some(env) => {
             use rayon::prelude::*;
-            let n = ctx.tier.pick(48u32, 640u32);
+            let n = ctx.tier.pick(96u32, 960u32);
             let shards = 16u32;
             (0..shards).into_par_iter().for_each(|s| {
                 vcore::ev::run_prop_shrink(ctx, &format!("e2e-{s}"), n / shards, 16, e2e_case(), |c| check_e2e(ctx, &env, c, &format!("c11-{s}")));
